@@ -455,6 +455,14 @@ gen_job_impl(Rng &r, const Suite &s, const GenOpts &o, bool force, uint32_t flen
                 j.inplace = 1;
                 j.tag_len = 4;
                 j.h_off = off;
+                if (!force && n >= 1 && r.below(12) == 0) {
+                        // cipher only: a hash length of zero switches the CRC off (validation permits it), the BPI cipher
+                        // runs over the given range
+                        j.h_len = 0;
+                        j.c_off = off;
+                        j.c_len = n;
+                        return j;
+                }
                 if (n >= 14 + 4) {
                         j.h_len = n - 4;
                         j.c_off = off + 12;
